@@ -206,6 +206,19 @@ void owned(vf::Draw &d, vf::Ctx &ctx) {
   } else if constexpr (OP == 1) {
     C07_CALL(ctx, "t2 = t*2 + 1", *t2 = (*t) * T(2) + T(1));
     for (size_t i = 0; i < N; ++i) if (!(t2->data()[i] == va[i] * T(2) + T(1))) { ctx.fail("t2 = t*2+1: position %zu wrong", i); break; }
+  } else if constexpr (OP == 3) {
+    // in-place member functions (shared by Tensor and TensorMap through TensorMethods.h), also on objects of several kilobytes: no heap
+    // scratch, nothing outside the object
+    C07_CALL(ctx, "t.reverse()", t->reverse());
+    for (size_t i = 0; i < N; ++i) if (!(t->data()[i] == va[N - 1 - i])) { ctx.fail("t.reverse(): position %zu holds %s, expected %s", i, vfo::show(t->data()[i]).c_str(), vfo::show(va[N - 1 - i]).c_str()); break; }
+    C07_CALL(ctx, "t.reverse() (back)", t->reverse());
+    C07_CALL(ctx, "t2.fill(c)", t2->fill(T(7)));
+    for (size_t i = 0; i < N; ++i) if (!(t2->data()[i] == T(7))) { ctx.fail("t2.fill(7): position %zu wrong", i); break; }
+    C07_CALL(ctx, "t2.iota(c)", t2->iota(T(1)));
+    for (size_t i = 0; i < N; ++i) if (!(t2->data()[i] == T(1) + T(i))) { ctx.fail("t2.iota(1): position %zu wrong", i); break; }
+    C07_CALL(ctx, "t2.zeros()", t2->zeros());
+    C07_CALL(ctx, "t2.ones()", t2->ones());
+    for (size_t i = 0; i < N; ++i) if (!(t2->data()[i] == T(1))) { ctx.fail("t2.ones(): position %zu wrong", i); break; }
   } else {
     C07_CALL(ctx, "t2 += t", *t2 += *t);
     C07_CALL(ctx, "t2 = abs(t2)", *t2 = abs(*t2));
